@@ -320,6 +320,42 @@ def variable_section(ctx):
                                          k, mark, base, "" if comp is None else " (component %d)" % comp, got and got[:2], want))
 
 
+def colliding_names_section(ctx):
+    """anchor names that differ only in characters which are not legal in a feature-file class name ('top-x' / 'topx', 'a+b' /
+    'ab', 'top x' / 'topx'): a mark attaches where the anchor names MATCH and nowhere else"""
+    import ufo2ft
+    from fontTools.ttLib import TTFont
+    PAIRS = [("top-x", "topx"), ("a+b", "ab"), ("topx", "top x"), ("k\u00e9y", "ky")]
+    for i in range(ctx.budget(len(PAIRS) * 2, len(PAIRS) * 4)):
+        n1, n2 = PAIRS[i % len(PAIRS)]
+        lib = ["ufoLib2", "defcon"][(i // len(PAIRS)) % 2]
+        group = (i // (2 * len(PAIRS))) % 2 == 1
+        glyphs = [{"name": "a", "unicodes": [0x61], "width": 500, "contours": [], "anchors": [(n1, Fr(100), Fr(500))]},
+                  {"name": "b", "unicodes": [0x62], "width": 500, "contours": [], "anchors": [(n2, Fr(300), Fr(510))]},
+                  {"name": "m1", "unicodes": [0x301], "width": 0, "contours": [], "anchors": [("_" + n1, Fr(0), Fr(480))]},
+                  {"name": "m2", "unicodes": [0x302], "width": 0, "contours": [], "anchors": [("_" + n2, Fr(10), Fr(470))]}]
+        desc = {"glyphs": glyphs, "features": "languagesystem DFLT dflt;\n",
+                "lib": {"public.openTypeCategories": {"a": "base", "b": "base", "m1": "mark", "m2": "mark"}}}
+        case = {"font": jsonable(desc), "lib": lib, "anchor_names": [n1, n2], "groupMarkClasses": group}
+        ctx.count(); ctx.klass("anchor names colliding as class names: %r / %r" % (n1, n2)); ctx.nontriv(("coll", i, ctx.scale))
+        try:
+            from ufo2ft.featureWriters import KernFeatureWriter, MarkFeatureWriter, GdefFeatureWriter, CursFeatureWriter
+            tt = ufo2ft.compileTTF(build_font(desc, lib), useProductionNames=False,
+                                   featureWriters=[CursFeatureWriter, KernFeatureWriter, MarkFeatureWriter(groupMarkClasses=group), GdefFeatureWriter])
+            b = io.BytesIO(); tt.save(b); lay = Layout(TTFont(io.BytesIO(b.getvalue())))
+        except Exception as e:
+            ctx.spec_failure(case, "compile raised %s: %s\n%s" % (type(e).__name__, e, traceback.format_exc()[-1000:]))
+            continue
+        lk = lay.lookups_for("DFLT", {"mark"})
+        want = {("a", "m1"): (100, 20), ("a", "m2"): None, ("b", "m1"): None, ("b", "m2"): (290, 40)}
+        for (base, mk), w in want.items():
+            got = lay.mark_attach(lk, base, mk)
+            got = tuple(got[:2]) if got else None
+            if got != w:
+                ctx.spec_failure(dict(case, base=base, mark=mk), "%s on %s: attached by %r, the anchors %s" % (
+                    mk, base, got, "coincide at %r" % (w,) if w else "share no name: no attachment"))
+
+
 def mark_class_section(ctx):
     """_makeMarkClassDefinitions against Mark/MarkClasses.v: feature files that already define mark classes -- under the
     name the writer generates (@MC_top), under its first fallback (@MC_top_1), under other names -- holding some of the
@@ -412,6 +448,7 @@ def mark_class_section(ctx):
 
 def explore(ctx):
     mark_class_section(ctx)
+    colliding_names_section(ctx)
     variable_section(ctx)
     contextual_orphan_section(ctx)
     color_graph_section(ctx)
